@@ -337,7 +337,7 @@ def panic_inventory(ctx, rule):
                         dt = b.blocks[d]["term"]
                         if dt and dt["k"] == "switch":
                             e = sy.operand(dt["discr"])
-                            if any(isinstance(x, tuple) and x and x[0] == "call" and x[1].endswith(("HashMap::contains_key", "HashMap::get", "HashMap::get_mut", "HashMap::remove", "HashMap::insert")) for x in S.walk(e)):
+                            if any(isinstance(x, tuple) and x and x[0] == "call" and x[1].endswith(("HashMap::contains_key", "HashMap::get", "HashMap::get_mut", "HashMap::remove", "HashMap::insert", "HashMap::entry")) for x in S.walk(e)):
                                 cls = "registry-contract"
             elif b.cn.endswith("FadingWindows::new"):
                 cls = "discharged:R11.g (window size constant >= 1)"
